@@ -1466,6 +1466,7 @@ func main() {
 		// the live heap of a worker is tiny and every exchange leaves a few KiB of garbage:
 		// with the default GOGC more than a third of the CPU went into back-to-back GC cycles
 		debug.SetGCPercent(4000)
+		debug.SetMemoryLimit(2 << 30) // with long values (layer L, thorough) 40x the live heap is too much for 16 workers
 		l := core.NewLocal()
 		nwk := r.NWorkers
 		if nwk < 1 {
